@@ -102,9 +102,12 @@ rule("TypeArg", ["TypeName", "TypeName", "'string'", "GenericType"], ["TypeName"
 rule("TypeArgs", ["TypeArg", "TypeArg ',' TypeArg", "'string' ',' GenericType"], ["TypeName"])
 rule("StructType", ["ClassType", "RecordType", "IntfType", "ClassType"], ["RecordType"])
 rule("ClassType", ["'class' @{ Members VisSections @C 'end' @}", "'class' '(' TypeNames ')' @{ Members VisSections @C 'end' @}",
+                   # (no attribute members in helpers: directly after `for T` a `[` continues the type name, as it would in Delphi)
+                   "'class' 'helper' 'for' TypeName @{ HelperMembers @C 'end' @}", "'record' 'helper' 'for' TypeName @{ HelperMembers @C 'end' @}",
                    "'class' 'abstract' '(' TypeName ')' @{ VisSections @C 'end' @}", "'class' 'sealed' @{ Members @C 'end' @}"],
      ["'class' @{ @C 'end' @}"])
 rule("TypeNames", ["TypeName", "TypeName ',' TypeName"])
+rule("HelperMembers", ["", "Method HelperMembers", "ClassMember HelperMembers", "Property HelperMembers"], [""])
 rule("RecordType", ["'record' @{ Fields @C 'end' @}", "'record' @{ Members VisSections @C 'end' @}", "'packed' 'record' @{ Fields @C 'end' @}"],
      ["'record' @{ Field @C 'end' @}"])
 rule("IntfType", ["'interface' @{ IntfMembers @C 'end' @}", "'interface' '(' TypeName ')' @{ IntfMembers @C 'end' @}",
@@ -116,12 +119,17 @@ rule("Visibility", ["'private'", "'protected'", "'public'", "'published'", "'str
 rule("Members", ["", "Member Members", "Member Members", "ClassVarSection"], [""])
 # `class var` opens a section of its own: the fields that follow belong to it (so it ends a member list)
 rule("ClassVarSection", ["@R 'class' 'var' @{ Field Fields @} @.", "@R 'class' 'var' @{ Field @} @."])
-rule("Member", ["Field", "Method", "Method", "Property", "ClassMember", "NestedSection"], ["Field"])
+rule("Member", ["Field", "Method", "Method", "Property", "ClassMember", "NestedSection", "AttrMember"], ["Field"])
+# an attribute stands on a line of its own in front of the member it belongs to (the member still starts its line)
+rule("AttrMember", ["@D Attr @. Field", "@D Attr @. Method", "@D Attr @. @D Attr @. Method", "@D Attr @. Property"])
+rule("Attr", ["'[' Ident ']'", "'[' Ident '(' String ')' ']'", "'[' Ident ',' Ident '(' Number ')' ']'", "'[' Ident '.' Ident '(' String ',' Number ')' ']'"], ["'[' Ident ']'"])
 # a nested const / type section inside a class or record; it ends at the next method, property or visibility section
 rule("NestedSection", ["@R 'const' @{ ConstDecl ConstDecls @} @. Method", "@R 'type' @{ TypeDecl @} @. Method"])
 rule("Fields", ["Field", "Field Fields"])
 rule("Field", ["@D IdentList ':' Type ';' @."])
-rule("ClassMember", ["@D 'class' MethodHead ';' @.", "@D 'class' MethodHead ';' 'static' ';' @."])
+rule("ClassMember", ["@D 'class' MethodHead ';' @.", "@D 'class' MethodHead ';' 'static' ';' @.",
+                     "@D 'class' 'operator' OperatorName '(' Params ')' ':' Type ';' @.", "@D 'class' 'property' Ident ':' Type 'read' Ident ';' @."])
+rule("OperatorName", ["'Add'", "'Implicit'", "'Equal'", "'In'"], ["'Add'"], ident=True)
 rule("Method", ["@D MethodHead ';' @.", "@D MethodHead ';' MethodDirs @.", "@D 'constructor' Ident OptParams ';' @.",
                 "@D 'destructor' Ident ';' 'override' ';' @."], ["@D MethodHead ';' @."])
 rule("MethodHead", ["'procedure' Ident OptParams", "'function' Ident OptParams ':' Type"], ["'procedure' Ident"])
@@ -185,7 +193,7 @@ rule("CaseLabels", ["CaseLabel", "CaseLabel ',' CaseLabel"], ["CaseLabel"])
 rule("CaseLabel", ["Number", "Ident", "Number '..' Number", "String"], ["Number"])
 rule("ForStmt", ["'for' Ident ':=' Expr 'to' Expr 'do' Body", "'for' Ident ':=' Expr 'downto' Expr 'do' Body", "'for' Ident 'in' Expr 'do' Body",
                  "'for' 'var' Ident ':=' Expr 'to' Expr 'do' Body", "'for' 'var' Ident 'in' Expr 'do' Body"],
-     ["'for' Ident 'in' Ident 'do' @R SimpleBody @."])
+     ["'for' Ident 'in' Ident 'do' @U SimpleBody @."])
 rule("WhileStmt", ["'while' Expr 'do' Body"], ["'while' Ident 'do' @U SimpleBody @."])
 rule("WithStmt", ["'with' Designator 'do' Body", "'with' Designator ',' Designator 'do' Body"], ["'with' Ident 'do' @U SimpleBody @."])
 rule("RepeatStmt", ["'repeat' @{ StmtList @C 'until' Expr @}"])
